@@ -190,6 +190,19 @@ class VFS:
         return FakeStat(rec)
 
     def listdir(self, path):
+        # every second injected listdir fault surfaces when the listing is ITERATED, not when it is requested (an
+        # iterator-style listdir such as os.scandir can fail on either occasion)
+        if self.n + 1 == self.fault_at and self.fault_at % 2 == 0:
+            self.n += 1
+            self.calls += 1
+            self.hit = {"op": "listdir", "p": ppath(path), "err": self.fault_err, "n": self.n}
+            err = OSError(ERRNO[self.fault_err], "injected " + self.fault_err + " (on iteration)", path)
+
+            def lazy():
+                raise err
+                yield  # pragma: no cover
+
+            return lazy()
         self._call("listdir", path)
         rec = self.byname.get(path)
         if rec is None:
